@@ -21,7 +21,7 @@ partial def Kind.dec : Sexp → Option Kind
   | .list (.atom "tuple" :: ks) => (optAll (ks.map Kind.dec)).map .tuple
   | _ => none
 
-def decInt (s : String) : Option Int :=
+def decIntStr (s : String) : Option Int :=
   match s.toList with
   | '-' :: ds => (String.ofList ds).toNat?.map (fun n => -(n : Int))
   | _ => s.toNat?.map (fun n => (n : Int))
@@ -38,7 +38,7 @@ def Prim.enc : Prim α → Sexp
 
 def Prim.dec : Sexp → Option (Prim α)
   | .list [.atom "num", n] => (decNumS n).map .number
-  | .list [.atom "int", .atom s] => (decInt s).map .integer
+  | .list [.atom "int", .atom s] => (decIntStr s).map .integer
   | .list [.atom "pint", .atom s] => s.toNat?.map .pint
   | .list [.atom "bool", .atom "true"] => some (.boolean true)
   | .list [.atom "bool", .atom "false"] => some (.boolean false)
